@@ -30,6 +30,9 @@ func init() {
 			{ID: "C17.R12", Floor: 2, Run: poolRestoredVerbatim, Text: "LoadEntities restores entityPool.next and .available from the dump's Next and Available as recorded (not recomputed from lengths: slot 0 is reserved)"},
 			{ID: "C17.R13", Floor: 2, Run: decodeBufferWidth, Text: "the JSON decode buffer of an Entity has unsigned elements of at least 32 bits: ids and generations use the full uint32 range"},
 			{ID: "C17.R4", Floor: 2, Run: c17r4, Text: "no alias of the dump: the slices LoadEntities stores into the pool and the index derive only from make/append-to-fresh, never from a field of the parameter"},
+			{ID: "C17.R14", Floor: 5, Run: c02r6, Text: "the load copies the dump's whole pool (= C02.R6): no append/copy from a non-zero lower bound; slot 0 holds the sentinel that keeps the zero entity dead"},
+			{ID: "C17.R15", Floor: 1, Run: dumpAliveFromTables, Text: "the dump lists alive ids in table order: every element of the alive list is the id of an entity read from table storage (Query.Entity / GetEntity), not a position of the entity index"},
+			{ID: "C17.R16", Floor: 1, Run: internalQueriesExhausted, Text: "queries opened inside the library are run to the end (= C09.R13): DumpEntities leaves the world unlocked"},
 		},
 	})
 	register(&Property{
@@ -55,6 +58,8 @@ func init() {
 			{ID: "C02.R14", Floor: 7, Run: c01r2, Text: "alloc ⇄ index (= C01.R2): a row allocated for an entity is recorded in World.entities itself, not in a copy of the entry; a stale entry makes a later removal recycle another entity's id"},
 			{ID: "C02.R15", Floor: 2, Run: poolRestoredVerbatim, Text: "LoadEntities restores the pool's free-list head and count verbatim (= C17.R12): an off-by-one count issues the reserved zero id"},
 			{ID: "C02.R16", Floor: 3, Run: targetFlagsCoverIndex, Text: "the target flags are resized in step with the entity index (= C06.R14)"},
+			{ID: "C02.R17", Floor: 12, Run: c11r2, Text: "removal events precede the removal (= C11.R2): the handle is still alive while its EntityRemoved event is delivered; recycling first makes the entity dead inside its own removal event"},
+			{ID: "C02.R18", Floor: 1, Run: deactivateOnlyOnRetire, Text: "a table is marked inactive only by the retiring method (= C03.R13): an inactive table that is still mapped hides its entities from filter-based removal and from Reset"},
 		},
 	})
 }
